@@ -49,3 +49,7 @@ pub uninterp spec fn utf8_bytes(s: Seq<char>) -> Seq<u8>;
 pub assume_specification [std::string::String::as_bytes] (s: &String) -> (r: &[u8])
     ensures r@ == utf8_bytes(s@);
 }
+verus! {
+pub assume_specification<T: std::default::Default + std::marker::Destruct, E: std::marker::Destruct> [std::result::Result::<T, E>::unwrap_or_default] (r: std::result::Result<T, E>) -> (v: T)
+    ensures r matches Ok(x) ==> v == x;
+}
